@@ -24,14 +24,16 @@ import (
 // C06 harness, DNS level: one case = (rewrite table, question); the request
 // goes through the real (*Server).handleDNSRequest (filterDNSRequest,
 // processUpstream, processFilteringAfterResponse) with a recording upstream
-// that answers A with 9.9.9.9, AAAA with 9::9 and anything else with an empty
-// NOERROR.  Observation: the names the upstream was asked for, and the reply
+// that answers, per case, either NOERROR (A with 9.9.9.9, AAAA with 9::9,
+// anything else empty) or an empty NXDOMAIN / SERVFAIL / REFUSED.  Observation: the names the upstream was asked for, and the reply
 // the client gets (rcode, question name, answer records).
 
 var (
 	c06S     *Server
 	c06Mu    sync.Mutex
 	c06Asked []string
+	// c06UpsRcode is what the recording upstream answers with in this case.
+	c06UpsRcode int
 )
 
 const (
@@ -45,7 +47,13 @@ func c06OnExchange(req *dns.Msg) (resp *dns.Msg, err error) {
 	q := req.Question[0]
 	c06Mu.Lock()
 	c06Asked = append(c06Asked, q.Name)
+	rc := c06UpsRcode
 	c06Mu.Unlock()
+
+	if rc != dns.RcodeSuccess {
+		// NXDOMAIN / SERVFAIL / REFUSED: an empty reply with that rcode.
+		return new(dns.Msg).SetRcode(req, rc), nil
+	}
 
 	resp = new(dns.Msg).SetReply(req)
 	hdr := dns.RR_Header{Name: q.Name, Rrtype: q.Qtype, Class: dns.ClassINET, Ttl: 10}
@@ -75,7 +83,7 @@ func c06NewFilter(rws []*filtering.LegacyRewrite) (f *filtering.DNSFilter, err e
 	return f, nil
 }
 
-// c06DNSRun executes one case:  C06.dns  n  (domain answer kind ip)×n  host  qtype
+// c06DNSRun executes one case:  C06.dns  n  (domain answer kind ip)×n  host  qtype  upstream-rcode
 func c06DNSRun(f []string) []string {
 	if f[0] != "C06.dns" {
 		panic("unknown op " + f[0])
@@ -87,6 +95,7 @@ func c06DNSRun(f []string) []string {
 	}
 	host := vutil.Unhex(f[2+4*n])
 	qt := uint16(vutil.Atoi(f[3+4*n]))
+	rc := vutil.Atoi(f[4+4*n])
 
 	// filtering.New runs the real prepareRewrites/normalize on the table.
 	flt, err := c06NewFilter(rws)
@@ -102,6 +111,7 @@ func c06DNSRun(f []string) []string {
 
 	c06Mu.Lock()
 	c06Asked = nil
+	c06UpsRcode = rc
 	c06Mu.Unlock()
 
 	req := createTestMessageWithType(dns.Fqdn(host), qt)
@@ -234,7 +244,12 @@ func c06DNSGen(r *rand.Rand, emit vutil.Emit) {
 			}
 			f = append(f, vutil.Hex(e[0]), vutil.Hex(e[1]), kind, vutil.Hex(ips))
 		}
-		f = append(f, vutil.Hex(host), vutil.Itoa(qt))
+		// the upstream's rcode: NOERROR, NXDOMAIN, SERVFAIL, REFUSED
+		rc := 0
+		if r.IntN(100) < 40 {
+			rc = vutil.Pick(r, []int{dns.RcodeNameError, dns.RcodeNameError, dns.RcodeServerFailure, dns.RcodeRefused})
+		}
+		f = append(f, vutil.Hex(host), vutil.Itoa(qt), vutil.Itoa(rc))
 		emit(f...)
 	}
 }
